@@ -8,13 +8,13 @@ import shutil
 import tempfile
 import zlib
 
-from checks.loadgen import gen_service, mean_service
+from checks.loadgen import composite_leaves, gen_composite, gen_service, mean_service, strip_svc
 from sim.batch import Harness, RunResult
 from sim.racesim import RaceSim, leaf_tasks, race_digest
 from sim.simes import Outcome
 
 HOSTS = ["localhost", "127.0.1.1", "127.0.1.2"]
-OPS = ["sim-op", "sim-op", "sim-op", "sim-op", "raw-request", "raw-request", "raw-request", "bulk", "sleep", "cluster-health", "refresh"]
+OPS = ["sim-op", "sim-op", "sim-op", "sim-op", "raw-request", "raw-request", "raw-request", "bulk", "sleep", "cluster-health", "refresh", "composite"]
 TAGS = ["x", "y", "z"]
 
 
@@ -49,6 +49,15 @@ def gen_task(g, name, svc, big, role="normal"):
         t["iterations"] = g.pick([1, 2, 4])
         if g.coin(0.3):
             t["warmup-iterations"] = 1
+        return t
+    if t["op"] == "composite":
+        t["iterations"] = g.pick([1, 2, 3])
+        t["warmup-iterations"] = g.pick([0, 0, 1])
+        t["clients"] = min(t["clients"], 3)
+        t["requests"] = strip_svc(gen_composite(g, name, depth=0))
+        for leaf in composite_leaves(t["requests"]).values():
+            if leaf["operation-type"] == "sleep":
+                leaf["duration"] = min(leaf["duration"], 0.02)
         return t
     loop = g.weighted([6, 3, 2]) if role == "normal" else 0
     if loop == 0:
@@ -816,6 +825,25 @@ class RaceHarness(Harness):
             if n == want:
                 return "full"
             return "some-client-full" if any(v >= each for v in per_client.values()) else ("cut" if n else "skipped")
+        if t["op"] == "composite":
+            per_client = info["composite"].get(name, {})
+            each = t.get("iterations", 1) + t.get("warmup-iterations", 0)
+            wire_leaves = [l["name"] for l in composite_leaves(t["requests"]).values() if l["operation-type"] == "raw-request"]
+            if not wire_leaves:
+                return "full"
+            for client, per_leaf in per_client.items():
+                counts = {per_leaf.get(n, 0) for n in wire_leaves}
+                if len(counts) != 1 and must_finish:
+                    bad("exactly-once", "composite-partial", f"{ctx} client {client}: sub-requests were issued {per_leaf} times, a composite request issues each of {wire_leaves} once")
+                    return "cut"
+                if max(counts) > each and not info["over_committed"](ei):
+                    bad("exactly-once", "composite-too-many", f"{ctx} client {client}: {max(counts)} composite requests, the task asks for {each}")
+                    return "cut"
+            total = sum(max((pl.get(n, 0) for n in wire_leaves), default=0) for pl in per_client.values())
+            if must_finish and total != each * t["clients"]:
+                bad("exactly-once", "composite-count", f"{ctx}: {total} composite requests at the cluster, {each * t['clients']} expected ({per_client})")
+                return "cut"
+            return "full" if total == each * t["clients"] else ("some-client-full" if any(max((pl.get(n, 0) for n in wire_leaves), default=0) >= each for pl in per_client.values()) else ("cut" if total else "skipped"))
         return "full"  # sleep: invisible at the cluster
 
     # -- C07 ---------------------------------------------------------------------------------
@@ -831,8 +859,15 @@ class RaceHarness(Harness):
                 key = (d.get("task"), d["meta"].get("client_id"))
                 got.setdefault(key, {}).setdefault(d["name"], 0)
                 got[key][d["name"]] += 1
-        sleepers = {t["name"] for _, _, t in leaf_tasks(schedule) if t["op"] in ("sleep", "composite")}
+        sleepers = {t["name"] for _, _, t in leaf_tasks(schedule) if t["op"] == "sleep" or (t["op"] == "composite" and not any(l["operation-type"] == "raw-request" for l in composite_leaves(t["requests"]).values()))}
         got = {k: v for k, v in got.items() if k[0] not in sleepers}
+        # a composite request yields one service_time record for itself plus one per sub-request
+        for key, dep in info["expected_dependent"].items():
+            if key in got and "service_time" in got[key]:
+                have_dep = got[key]["service_time"] - got[key].get("latency", 0)
+                if have_dep != dep and not (knobs.get("downsample", 1) > 1 or knobs.get("queue_size")):
+                    bad("records", "dependent-timings", f"task {key[0]} client {key[1]}: {expected.get(key, 0)} composite requests with {dep} sub-requests in total, but {have_dep} dependent service_time records at race control")
+                got[key]["service_time"] = got[key].get("latency", 0)
         reduced = knobs.get("downsample", 1) > 1 or knobs.get("queue_size")
         total_exp = sum(expected.values())
         total_got = sum(v.get("service_time", 0) for v in got.values())
@@ -860,7 +895,10 @@ class RaceHarness(Harness):
                 return
         # operation name / throughput
         ops = {t["name"]: t.get("opname", f"op-{t['name']}") for _, _, t in leaf_tasks(schedule)}
+        subops = {t["name"]: set(composite_leaves(t["requests"])) for _, _, t in leaf_tasks(schedule) if t["op"] == "composite"}
         for d in rc_docs:
+            if d["name"] == "service_time" and d.get("task") in subops and d.get("operation") in subops[d["task"]]:
+                continue  # dependent timing of a composite: carries the name of the sub-request
             if d["name"] in ("latency", "service_time", "processing_time") and d.get("task") in ops and d.get("operation") != ops[d["task"]]:
                 bad("records", "operation", f"record of task {d['task']} carries operation {d.get('operation')}")
                 return
@@ -978,6 +1016,7 @@ def analyse(cfg, schedule, out, rc_events, rc_docs):
     sim_requests = {}  # task -> idx -> {seq: wire count}
     bulk_docs = {}
     admin = {}
+    composite = {}
     admin_by_client = {}
     logical = {}  # (task, client_id) -> set of logical request keys
     types = {}
@@ -1005,6 +1044,11 @@ def analyse(cfg, schedule, out, rc_events, rc_docs):
                 bulk_docs.setdefault(task, {})
                 bulk_docs[task][doc.get("n")] = bulk_docs[task].get(doc.get("n"), 0) + 1
             key = ("bulk", w.seq)
+        elif parts[0] == "_c":
+            task = parts[1]
+            comp = composite.setdefault(task, {}).setdefault(w.client_id, {})
+            comp[parts[2]] = comp.get(parts[2], 0) + 1
+            key = ("composite", parts[2], comp[parts[2]])
         elif parts[0] == "_cluster" and len(parts) >= 3 and parts[2].startswith("idx-"):
             task = parts[2][4:]
             admin[task] = admin.get(task, 0) + 1
@@ -1036,6 +1080,16 @@ def analyse(cfg, schedule, out, rc_events, rc_docs):
             if recv > sp["last_recv"]:
                 sp["last_recv"], sp["last_recv_wire"] = recv, w
     expected_records = {k: len(v) for k, v in logical.items()}
+    expected_dependent = {}
+    for (task, client), keys in list(logical.items()):
+        t = task_by_name[task]
+        if t["op"] == "composite":
+            # one logical request per occurrence of a wire leaf; every leaf (sleeps too) adds one dependent service_time record
+            per_leaf = composite.get(task, {}).get(client, {})
+            n = max(per_leaf.values()) if per_leaf else 0
+            expected_records[(task, client)] = n
+            nleaves = len(composite_leaves(t["requests"]))
+            expected_dependent[(task, client)] = n * nleaves
     # sleeps produce samples without wire requests: clients x iterations, attributed per physical client is unknown -> only totals per task
     expected_types = {}
     for (task, client), keys in logical.items():
@@ -1084,6 +1138,8 @@ def analyse(cfg, schedule, out, rc_events, rc_docs):
         "admin_by_client": admin_by_client,
         "over_committed": lambda ei: "parallel" in schedule[ei] and schedule[ei]["parallel"].get("clients") is not None and schedule[ei]["parallel"]["clients"] < sum(t["clients"] for t in schedule[ei]["parallel"]["tasks"]),
         "expected_records": expected_records,
+        "expected_dependent": expected_dependent,
+        "composite": composite,
         "expected_types": expected_types,
         "logical_requests": sum(expected_records.values()),
         "probes": probes,
